@@ -998,12 +998,31 @@ func (c *Ctx) checkGoroutines() {
 					for idx.Kind == KConv {
 						idx = idx.Args[0]
 					}
-					if !(idx.Kind == KFresh && idx.Name == "loop") {
+					// the loop variable itself, or (range loops) the incremented variable that was just tested against the bound
+					isLoopVar := idx.Kind == KFresh && idx.Name == "loop"
+					if !isLoopVar {
+						for _, b := range t.Events {
+							if b.Kind == EvBranch && b.Gen && b.Taken && b.Cond.Kind == KBin && b.Cond.Op == token.LSS {
+								x := b.Cond.Args[0]
+								for x.Kind == KConv {
+									x = x.Args[0]
+								}
+								if x.Key() == idx.Key() && idx.mentions2("loop") {
+									isLoopVar = true
+								}
+							}
+						}
+					}
+					if !isLoopVar {
 						ok = false
 					}
 				}
 				if e.Kind == EvBranch && e.Gen && e.Cond.Kind == KBin && e.Cond.Op == token.LSS {
-					if _, isSlot := isInitOfField(e.Cond.Args[1], slot); !isSlot {
+					_, isSlot := isInitOfField(e.Cond.Args[1], slot)
+					// `for i := range c.qs`: the bound is len(qs), and the index rule establishes len(qs) == slotSize
+					b := e.Cond.Args[1]
+					isLenQs := b.Kind == KOp && b.Name == "len" && strings.Contains(b.Args[0].Key(), ".qs")
+					if !isSlot && !isLenQs {
 						ok = false
 					}
 				}
